@@ -5,6 +5,7 @@ import (
 	"fmt"
 	"strings"
 	"sync"
+	"time"
 
 	"github.com/indexsupply/shovel/shovel"
 
@@ -46,7 +47,13 @@ type pipeScenario struct {
 	Initial  int
 	HashPlan bool
 	Notify   bool
+	explicit bool // StartAbs/Stop/Prior are meaningful
 	Hist     []histOp
+	// explicit range (C06); StartAbs < 0 = derive from StartK
+	StartAbs int64
+	Stop     uint64
+	// Prior >= 0: a position row (Prior, hash of that block) exists before the first step
+	Prior int64
 	// FinalGrow blocks appended after the history so that the head ends strictly
 	// above every recorded position (C03's reading of "the source settles").
 	FinalGrow int
@@ -162,7 +169,10 @@ func (ps *pipeScenario) build(r *vk.RNG) (*scen.Spec, *simnode.Chain, *model.Dec
 	case 3:
 		start = uint64(ps.Initial)
 	}
-	d := gen.Decl(r, gen.DeclOpts{Mode: ps.Mode, Name: namePoolIG[0], Table: namePoolTbl[0], Src: namePoolSrc[0], Start: start,
+	if ps.StartAbs >= 0 && ps.explicit {
+		start = uint64(ps.StartAbs)
+	}
+	d := gen.Decl(r, gen.DeclOpts{Mode: ps.Mode, Name: namePoolIG[0], Table: namePoolTbl[0], Src: namePoolSrc[0], Start: start, Stop: ps.Stop,
 		ABI: pipeABI, Exclude: gen.SafeExclude, SelIndexed: r.Bool(), HashPlan: ps.HashPlan})
 	if ps.Notify {
 		cols := d.TableColumns()
@@ -199,6 +209,7 @@ func applyChainOp(chain *simnode.Chain, h histOp) {
 
 // run executes the scenario once.
 func (ps *pipeScenario) run(c *vk.Case, o runOpts) *pipeRun {
+	baseViol := len(c.Res.Violations)
 	r := vk.NewRNG(ps.Seed)
 	spec, chain, d := ps.build(r)
 	run := &pipeRun{}
@@ -322,6 +333,21 @@ func (ps *pipeScenario) run(c *vk.Case, o runOpts) *pipeRun {
 	})
 
 	first := uint64(0)
+	if ps.explicit && ps.Prior >= 0 {
+		// a position left behind by an earlier run of the same pair
+		var h []byte
+		if b := chain.At(uint64(ps.Prior)); b != nil {
+			h = b.Hash
+		}
+		_, err := env.Pool.Exec(env.Ctx, `insert into shovel.task_updates (chain_id, src_name, ig_name, num, hash, src_num, src_hash, stop, nblocks, nrows, latency) values ($1,$2,$3,$4,$5,$6,$7,$8,$9,$10,$11)`,
+			uint64(7), namePoolSrc[0], d.Name, uint64(ps.Prior), h, uint64(ps.Prior), h, ps.Stop, uint64(1), uint64(0), time.Duration(0))
+		if err != nil {
+			c.Inconclusive("seeding prior position: %v", err)
+			return nil
+		}
+		env.Rec.Take()
+		first = uint64(ps.Prior) + 1
+	}
 	prevState := pm.captureLive()
 	doStep := func() *stepRec {
 		mu.Lock()
@@ -423,7 +449,7 @@ func (ps *pipeScenario) run(c *vk.Case, o runOpts) *pipeRun {
 	}
 
 	for _, h := range ps.Hist {
-		if len(c.Res.Violations) > 0 {
+		if len(c.Res.Violations) > baseViol {
 			break
 		}
 		switch h.Kind {
@@ -479,14 +505,14 @@ func (ps *pipeScenario) run(c *vk.Case, o runOpts) *pipeRun {
 		chain.Grow(g)
 		run.Trace = append(run.Trace, fmt.Sprintf("grow(%d)", g))
 	}
-	if !o.NoQuiesce && len(c.Res.Violations) == 0 {
+	if !o.NoQuiesce && len(c.Res.Violations) == baseViol {
 		maxq := o.MaxQuiet
 		if maxq == 0 {
 			maxq = int(chain.Head().Num) + 40
 		}
 		idle := 0
 		settled := false
-		for q := 0; q < maxq && len(c.Res.Violations) == 0; q++ {
+		for q := 0; q < maxq && len(c.Res.Violations) == baseViol; q++ {
 			if o.Trigger != nil && run.TriggerHit && !settled {
 				settled = true
 				// a chain event triggered during these steps may have shortened the chain:
@@ -504,7 +530,13 @@ func (ps *pipeScenario) run(c *vk.Case, o runOpts) *pipeRun {
 			}
 			sr := doStep()
 			run.Steps = append(run.Steps, *sr)
-			if errors.Is(sr.Err, shovel.ErrNothingNew) && sr.HasPos && sr.Position == chain.Head().Num {
+			if errors.Is(sr.Err, shovel.ErrDone) && ps.Stop > 0 {
+				idle++
+				if idle >= 3 {
+					run.Idle = true
+					break
+				}
+			} else if errors.Is(sr.Err, shovel.ErrNothingNew) && sr.HasPos && sr.Position == chain.Head().Num {
 				idle++
 				if idle >= 3 {
 					run.Idle = true
@@ -518,9 +550,13 @@ func (ps *pipeScenario) run(c *vk.Case, o runOpts) *pipeRun {
 	run.Final = pm.captureLive()
 	run.Head = chain.Head().Num
 	run.First = first
-	if o.FinalVerdict && len(c.Res.Violations) == 0 && run.Idle {
+	if o.FinalVerdict && len(c.Res.Violations) == baseViol && run.Idle && len(run.Final.cursors)+len(run.Final.rows) > 0 {
 		pm.first = first
-		pm.quiescenceVerdict(chain.Head().Num, run.Plan, map[string]any{"scenario": ps.Describe(), "config": run.ConfJSON, "plan": run.Plan, "trace": lastN(run.Trace, 30)})
+		upto := chain.Head().Num
+		if ps.Stop > 0 && ps.Stop < upto {
+			upto = ps.Stop
+		}
+		pm.quiescenceVerdict(upto, run.Plan, map[string]any{"scenario": ps.Describe(), "config": run.ConfJSON, "plan": run.Plan, "trace": lastN(run.Trace, 30)})
 	}
 	if us := env.PG.Unsupported(); len(us) > 0 {
 		c.Inconclusive("fakepg contract left: %v", us)
